@@ -171,3 +171,73 @@ Proof.
   destruct (pieces_concat ns (concat ms) Hn Hs) as [H3 H4].
   exists ms'. split; [exact H1|]. split; [exact H3|]. rewrite H2. exact H4.
 Qed.
+
+(* ================================================================= C. selection, then decode *)
+Lemma map_select {A B} (f : A -> B) (l : list A) idx : map f (select l idx) = select (map f l) idx.
+Proof.
+  unfold select. induction idx as [|i idx IH]; [reflexivity|].
+  cbn [flat_map]. rewrite map_app, IH, nth_error_map.
+  destruct (nth_error l (Z.to_nat i)); reflexivity.
+Qed.
+(* decode o select = select o decode, for the extractor model, any buffer (valid or not), any index list *)
+Lemma decode_select_commute v names b idx :
+  decode_buf v names (select_buf b idx) = select (decode_buf v names b) idx
+  /\ intervals_buf v names (select_buf b idx) = select (intervals_buf v names b) idx.
+Proof. unfold decode_buf, intervals_buf, select_buf. cbn [bf_data bf_starts]. split; apply map_select. Qed.
+
+Lemma decode_selected_as_buf v names b idx : Forall (fun i => 0 <= i < len (bf_starts b)) idx ->
+  decode_selected v names b idx = Some (decode_buf v names (select_buf b idx)).
+Proof.
+  intros Hidx. unfold decode_selected, decode_buf, select_buf, select. cbn [bf_data bf_starts].
+  induction Hidx as [|i idx Hi _ IH]; [reflexivity|].
+  cbn [map all_some flat_map].
+  destruct (nth_error (bf_starts b) (Z.to_nat i)) as [s|] eqn:E.
+  - replace i with (Z.of_nat (Z.to_nat i)) at 1 by lia. rewrite (py_index_nat _ _ _ E). cbn [option_map].
+    rewrite IH. reflexivity.
+  - apply nth_error_None in E. unfold len in Hi. lia.
+Qed.
+
+(* on a valid file: every column of a selection (and of a selection of a selection) is the spec value of exactly the
+   selected records in the selection's order *)
+Lemma nth_select {A} (l : list A) a : Forall (fun i => 0 <= i < len l) a ->
+  forall n, nth_error (select l a) n
+            = match nth_error a n with Some i => nth_error l (Z.to_nat i) | None => None end.
+Proof.
+  intros Ha. induction Ha as [|i a Hi _ IH]; intros n.
+  - destruct n; reflexivity.
+  - unfold select. cbn [flat_map]. fold (select l a).
+    destruct (nth_error l (Z.to_nat i)) as [x|] eqn:E; [|apply nth_error_None in E; unfold len in Hi; lia].
+    destruct n as [|n]; cbn [app nth_error]; [symmetry; exact E|apply IH].
+Qed.
+Lemma select_app {A} (l : list A) x y : select l (x ++ y) = select l x ++ select l y.
+Proof. unfold select. apply flat_map_app. Qed.
+Lemma select_select {A} (l : list A) a c : Forall (fun i => 0 <= i < len l) a ->
+  select (select l a) c = select l (select a c).
+Proof.
+  intros Ha. induction c as [|j c IH]; [reflexivity|].
+  change (select (select l a) (j :: c))
+    with ((match nth_error (select l a) (Z.to_nat j) with Some x => [x] | None => [] end) ++ select (select l a) c).
+  change (select a (j :: c))
+    with ((match nth_error a (Z.to_nat j) with Some x => [x] | None => [] end) ++ select a c).
+  rewrite IH, select_app. f_equal.
+  rewrite (nth_select l a Ha).
+  destruct (nth_error a (Z.to_nat j)) as [i|]; [|reflexivity].
+  unfold select. cbn [flat_map]. rewrite app_nil_r. reflexivity.
+Qed.
+
+Lemma selection_decodes v B (HB : B <= 65536) (Hcb : forall n, 0 <= n < B -> v_cigar_bytes v n = 4 * n) names rs a c :
+  Forall (rec_valid B) rs -> Forall (fun i => 0 <= i < len rs) a ->
+  decode_buf v names (select_buf (buf_of rs) a) = map (fun r => spec_orec v r names) (select rs a)
+  /\ intervals_buf v names (select_buf (buf_of rs) a) = map (fun r => spec_oiv v r names) (select rs a)
+  /\ decode_buf v names (select_buf (select_buf (buf_of rs) a) c)
+     = map (fun r => spec_orec v r names) (select (select rs a) c)
+  /\ intervals_buf v names (select_buf (select_buf (buf_of rs) a) c)
+     = map (fun r => spec_oiv v r names) (select (select rs a) c).
+Proof.
+  intros Hv Ha.
+  destruct (decode_select_commute v names (buf_of rs) a) as [D1 I1].
+  destruct (decode_select_commute v names (select_buf (buf_of rs) a) c) as [D2 I2].
+  rewrite D2, I2, D1, I1.
+  rewrite (decode_buf_correct v B HB Hcb names rs Hv), (intervals_buf_correct v B HB Hcb names rs Hv).
+  rewrite !map_select. repeat split; reflexivity.
+Qed.
